@@ -513,18 +513,43 @@ def gen_proj(rng):
         re = Fraction(mn * cn, md * cd)
         im = Fraction(mn * sn, md * sd)
         psi.append({"v": list(v), "re": [re.numerator, re.denominator], "im": [im.numerator, im.denominator]})
+    # unnormalised pre-measurement states: a common rational factor on the amplitudes ...
+    if rng.random() < 0.5:
+        fac = Fraction(*rng.choice([(1, 2), (3, 4), (2, 3), (5, 4), (1, 3)]))
+        for p in psi:
+            for key in ("re", "im"):
+                f = Fraction(*p[key]) * fac
+                p[key] = [f.numerator, f.denominator]
     total = max(sum(p["v"]) for p in psi)
     cutoff = total + 1 + rng.randint(0, 2) if sim == "purefock" else d + 1
-    modes = rng.sample(range(d), rng.randint(1, d))
+    # ... and a PostSelectPhotons before the measurements (keeps the unnormalised projection)
+    post = None
+    free = list(range(d))
+    if sim == "purefock" and d >= 2 and rng.random() < 0.4:
+        pm = rng.sample(range(d), rng.randint(1, d - 1))
+        src = rng.choice(psi)["v"]
+        counts = [src[m] for m in pm] if rng.random() < 0.85 else [rng.choice([0, 1]) for _ in pm]
+        post = [pm, counts]
+        free = [m for m in range(d) if m not in pm]
+    modes = rng.sample(free, rng.randint(1, len(free)))
     nparts = rng.randint(1, min(3, len(modes)))
     cuts = sorted(rng.sample(range(1, len(modes)), nparts - 1)) if nparts > 1 else []
     parts = [modes[a:b] for a, b in zip([0] + cuts, cuts + [len(modes)])]
     prep = [{"k": "NS", "modes": [], "args": {"n": p["v"], "re": float(Fraction(*p["re"])), "im": float(Fraction(*p["im"]))}} for p in psi]
-    seq = prep + [{"k": "PNM", "modes": part, "args": {}} for part in parts]
-    joint = prep + [{"k": "PNM", "modes": modes, "args": {}}]
-    return {"sim": sim, "d": d, "cutoff": cutoff, "psi": psi, "parts": parts,
+    pre = prep + ([{"k": "POST", "modes": post[0], "args": {"counts": post[1]}}] if post else [])
+    psteps = [["P", post[0], post[1]]] if post else []
+    seq = pre + [{"k": "PNM", "modes": part, "args": {}} for part in parts]
+    joint = pre + [{"k": "PNM", "modes": modes, "args": {}}]
+    return {"sim": sim, "d": d, "cutoff": cutoff, "psi": psi, "parts": parts, "post": post,
+            "steps_seq": psteps + [["M", part] for part in parts], "steps_joint": psteps + [["M", modes]],
+            "norm2": float(sum(Fraction(*p["re"]) ** 2 + Fraction(*p["im"]) ** 2 for p in psi)),
             "seq": {"sim": sim, "d": d, "cutoff": cutoff, "instrs": seq, "shots": None},
             "joint": {"sim": sim, "d": d, "cutoff": cutoff, "instrs": joint, "shots": None}}
+
+
+def cpsteps(steps):
+    return clist(steps, lambda s: "(PMeasure %s)" % clist(s[1], cnat) if s[0] == "M"
+                 else "(PPost %s %s)" % (clist(s[1], cnat), clist(s[2], cnat)))
 
 
 def cpsi(psi):
@@ -539,8 +564,8 @@ def cobranches(brs):
 
 
 PROJ_BODY = """
-Definition cases : list (nat * qstate * list (list nat) * list obranch) := %s.
-Eval vm_compute in mismatches (fun '(d, psi, Ls, obs) => proj_case_ok d psi Ls obs) cases.
+Definition cases : list (nat * qstate * list pstep * list obranch) := %s.
+Eval vm_compute in mismatches (fun '(d, psi, sts, obs) => proj_case_ok d psi sts obs) cases.
 Definition sj : list (nat * qstate * list nat * list nat) := %s.
 Eval vm_compute in mismatches (fun '(d, psi, L1, L2) => seq_joint_model_ok d psi L1 L2) sj.
 """
@@ -563,8 +588,7 @@ def run_proj_stream(chk, gens, out, corr_broken):
                 chk.violation("C03:%s:projective-run-raises" % g["sim"], "exact (shots=None) measurement raised: " + o["error"],
                               {"case": g[variant]})
                 continue
-            Ls = g["parts"] if variant == "seq" else [sum(g["parts"], [])]
-            items.append("(%s, %s, %s, %s)" % (cnat(g["d"]), cpsi(g["psi"]), clist(Ls, lambda L: clist(L, cnat)), cobranches(o["branches"])))
+            items.append("(%s, %s, %s, %s)" % (cnat(g["d"]), cpsi(g["psi"]), cpsteps(g["steps_" + variant]), cobranches(o["branches"])))
             owners.append((g, variant, o))
             # cutoff bookkeeping of project_to_subspace, directly on the implementation
             for b in o["branches"]:
@@ -582,6 +606,11 @@ def run_proj_stream(chk, gens, out, corr_broken):
         g2 = parse_coq_list(o)
         for k in g2[0]:
             g, variant, ob = owners[j * chunk + k]
+            chk.violation("C03:%s:exact-branches-vs-projective-model" % g["sim"],
+                          "shots=None: weights / branch states differ from the exact projective model (state of squared norm %.12g%s, measurements %s): implementation weights %s sum to %.12g" % (
+                              g["norm2"], ", PostSelectPhotons %s first" % (g["post"],) if g["post"] else "", g["parts"] if variant == "seq" else [sum(g["parts"], [])],
+                              [(tuple(b["outcome"]), round(float(fr(b["freq"])), 9)) for b in ob["branches"]][:6], sum(float(fr(b["freq"])) for b in ob["branches"])),
+                          {"case": g[variant], "state": g["psi"]}, source="correspondence")
             corr_broken.append("projective model != %s (%s measurement of %s on state %s): branches %s" % (
                 g["sim"], variant, g["parts"], [(p["v"], p["re"], p["im"]) for p in g["psi"]],
                 [(b["outcome"], float(fr(b["freq"]))) for b in ob["branches"]][:6]))
@@ -598,8 +627,10 @@ def run_proj_stream(chk, gens, out, corr_broken):
         mb = {tuple(x["outcome"]): float(fr(x["freq"])) for x in b["branches"]}
         if set(ma) != set(mb) or any(abs(ma[k] - mb[k]) > 1e-9 for k in ma):
             chk.violation("C03:%s:sequential-vs-joint" % g["sim"], "measuring %s one after another gives %s, together %s" % (g["parts"], ma, mb), {"case": g})
-        if abs(sum(ma.values()) - 1) > 1e-9:
-            chk.violation("C03:%s:exact-weights-sum" % g["sim"], "exact branch weights sum to %r for a normalised state" % sum(ma.values()), {"case": g["seq"]})
+        if g["post"] is None and abs(sum(mb.values()) - g["norm2"]) > 1e-9 * (1 + g["norm2"]):
+            chk.violation("C03:%s:exact-weights-sum" % g["sim"], "shots=None: the branch weights sum to %r, the squared norm of the measured state is %r" % (sum(mb.values()), g["norm2"]), {"case": g["joint"]})
+        if g["post"] is None and abs(sum(ma.values()) - g["norm2"]) > 1e-9 * (1 + g["norm2"]):
+            chk.violation("C03:%s:exact-weights-sum" % g["sim"], "shots=None: the branch weights of the sequential measurement sum to %r, the squared norm of the measured state is %r" % (sum(ma.values()), g["norm2"]), {"case": g["seq"]})
     distinct = len({json.dumps([g["sim"], g["d"], g["psi"], g["parts"]]) for g in gens if len(g["psi"]) >= 2})
     ex = next((g for g in gens if len(g["parts"]) >= 2 and len(g["psi"]) >= 3), gens[0])
     chk.stream("projective model (exact Gaussian-rational amplitudes) vs PureFockSimulator / fermionic PureFockSimulator with shots=None: "
@@ -677,6 +708,110 @@ def run_seqjoint_stream(chk, reqs, out):
                nok, len({json.dumps([r["sim"], r["prefix"], r["parts"]]) for r in reqs}), kind="search",
                samples=[{"sim": reqs[0]["sim"], "parts": reqs[0]["parts"]}])
 
+
+# =========================================================================== weights vs the state's own norm
+K_WEIGHTS_NORM = "C03:%s:exact-weights-vs-state-probabilities"
+
+
+def gen_norm(rng, n):
+    """shots=None on states whose norm is not 1, from every source the simulators offer:
+    preparations with coefficients of norm != 1, norm lost at the cutoff by active gates,
+    PostSelectPhotons before the measurement, density matrices of trace != 1, loss.  The
+    branch weights must be the marginal Fock probabilities of the pre-measurement state
+    itself and sum to its norm (implementation only, floats of the same run)."""
+    reqs = []
+    for _ in range(n):
+        sim = rng.choice(["purefock", "purefock", "purefock", "fock", "fermionic_fock", "passive"])
+        d = rng.randint(2, 3 if sim == "fock" else 4)
+        prefix = []
+        fermi = sim == "fermionic_fock"
+        if sim == "passive":
+            nvec = [0] * d
+            for _ in range(rng.randint(1, 3)):
+                nvec[rng.randrange(d)] += 1
+            total = sum(nvec)
+            prefix.append({"k": "NS", "modes": [], "args": {"n": nvec}})
+        else:
+            seen = set()
+            total = 0
+            for _ in range(rng.randint(1, 3)):
+                v = tuple(rng.choice([0, 1]) for _ in range(d)) if fermi else tuple(
+                    sorted([0] * (d - 1) + [rng.randint(0, 2)], key=lambda _: rng.random()))
+                if not fermi and rng.random() < 0.5:
+                    v = list(v)
+                    v[rng.randrange(d)] += 1
+                    v = tuple(v)
+                if v in seen:
+                    continue
+                seen.add(v)
+                total = max(total, sum(v))
+                c = rng.choice([0.5, 0.75, 0.25, 1.0, 1.25, 0.6])
+                if sim == "fock":
+                    prefix.append({"k": "DM", "modes": [], "args": {"ket": list(v), "bra": list(v), "re": c, "im": 0.0}})
+                else:
+                    prefix.append({"k": "NS", "modes": [], "args": {"n": list(v), "re": c * rng.choice([1, -1]), "im": rng.choice([0.0, 0.25])}})
+        cutoff = d + 1 if fermi else max(3, total + rng.randint(1, 2))
+        for _ in range(rng.randint(0, 4)):
+            r = rng.random()
+            if r < 0.55:
+                a = rng.randrange(d - 1)
+                ms = [a, a + 1] if fermi else rng.sample(range(d), 2)
+                prefix.append({"k": "BS", "modes": ms, "args": {"theta": 2 * math.atan(rng.choice([0.5, 1 / 3, 2.0, 1.0])), "phi": rng.choice([0.0, 0.5])}})
+            elif r < 0.75:
+                prefix.append({"k": "PS", "modes": [rng.randrange(d)], "args": {"phi": rng.choice([0.25, 1.5])}})
+            elif sim in ("purefock", "fock"):   # active gate: norm leaks out at the cutoff
+                prefix.append({"k": "SQ", "modes": [rng.randrange(d)], "args": {"r": rng.choice([0.25, 0.5]), "phi": 0.0}})
+            elif sim == "passive":
+                prefix.append({"k": "LOSS", "modes": [rng.randrange(d)], "args": {"t": rng.choice([0.5, 0.75])}})
+        free = list(range(d))
+        post = False
+        if sim in ("purefock", "passive") and rng.random() < 0.4:
+            pm = rng.sample(range(d), rng.randint(1, d - 1))
+            prefix.append({"k": "POST", "modes": pm, "args": {"counts": [rng.choice([0, 0, 1]) for _ in pm]}})
+            free = [m for m in free if m not in pm]
+            post = True
+        if sim == "passive" and post:
+            modes = list(free)      # a partial measurement after a post-selection is the open passive finding
+            rng.shuffle(modes)
+        else:
+            modes = rng.sample(free, rng.randint(1, len(free)))
+        reqs.append({"sim": sim, "d": d, "cutoff": cutoff, "prefix": prefix, "modes": modes, "post": post})
+    return reqs
+
+
+def run_norm_stream(chk, reqs, out):
+    nok = 0
+    nunnorm = 0
+    unsupported = 0
+    for r, o in zip(reqs, out):
+        if "error" in o:
+            if r["sim"] == "passive":
+                unsupported += 1
+            else:
+                chk.violation("C03:%s:exact-measurement-raises" % r["sim"], "shots=None measurement of an unnormalised state raised: " + o["error"], {"case": r})
+            continue
+        nok += 1
+        norm = o["norm"]
+        if abs(norm - 1) > 1e-6:
+            nunnorm += 1
+        w = {tuple(k): v for k, v in o["weights"]}
+        mg = {tuple(k): v for k, v in o["marginal"]}
+        keys = {k for k, v in w.items() if abs(v) > 1e-12} | {k for k, v in mg.items() if abs(v) > 1e-12}
+        tol = 1e-9 * (1 + abs(norm))
+        bad = [k for k in sorted(keys) if abs(w.get(k, 0.0) - mg.get(k, 0.0)) > tol]
+        sw, sm = sum(w.values()), sum(mg.values())
+        if bad or abs(sw - norm) > tol:
+            k = bad[0] if bad else None
+            chk.violation(K_WEIGHTS_NORM % r["sim"],
+                          "shots=None: the branch weights are not the outcome probabilities of the measured state: weights sum to %.12g, state.norm = %.12g (its Fock probabilities sum to %.12g)%s" % (
+                              sw, norm, sm, "" if k is None else "; outcome %s has weight %.12g, the state's marginal probability is %.12g" % (k, w.get(k, 0.0), mg.get(k, 0.0))),
+                          {"case": r, "weights": o["weights"][:12], "marginal": o["marginal"][:12], "norm": norm})
+    chk.stream("shots=None weights vs the pre-measurement state's own marginal Fock probabilities and norm, on unnormalised states "
+               "(scaled preparations, cutoff truncation, post-selection, trace != 1, loss), implementation only (search)",
+               nok, len({json.dumps([r["sim"], r["prefix"], r["modes"]]) for r in reqs}), kind="search",
+               note="%d of them with |norm - 1| > 1e-6; %d passive cases not supported by the simulator (raised)" % (nunnorm, unsupported),
+               samples=[{"sim": reqs[0]["sim"], "prefix": [(s["k"], s.get("modes")) for s in reqs[0]["prefix"]], "modes": reqs[0]["modes"]}] if reqs else None)
+
 # =========================================================================== main
 def gen_exec_cases(chk, sims, n_per_sim, corpus_cases):
     rng = chk.rng
@@ -749,7 +884,8 @@ def run(chk: Check):
     cases = gen_exec_cases(chk, sims, n_per, corpus)
     pgens = [gen_proj(chk.rng) for _ in range(max(4, int((1500 if T else 100) * SCALE)))]
     sjreqs = gen_seqjoint(chk, max(3, int((400 if T else 40) * SCALE)))
-    jobs = [{"cases": cases[0::2]}, {"cases": cases[1::2]}, {"proj": proj_requests(pgens)}, {"seqjoint": sjreqs}]
+    nreqs = gen_norm(chk.rng, max(6, int((1200 if T else 120) * SCALE)))
+    jobs = [{"cases": cases[0::2]}, {"cases": cases[1::2]}, {"proj": proj_requests(pgens)}, {"seqjoint": sjreqs, "norm": nreqs}]
     from concurrent.futures import ThreadPoolExecutor
     with ThreadPoolExecutor(max_workers=4) as ex:
         outs = list(ex.map(lambda j: run_impl("c03_impl.py", j, timeout=6000), jobs))
@@ -775,6 +911,7 @@ def run(chk: Check):
 
     run_proj_stream(chk, pgens, outs[2]["proj"], corr_broken)
     run_seqjoint_stream(chk, sjreqs, outs[3]["seqjoint"])
+    run_norm_stream(chk, nreqs, outs[3]["norm"])
 
     chk.assumptions += [
         "wf_step (section hypothesis of the accounting theorems): every simulation step asked for k>=1 shots answers with Fraction frequencies c_i/k, c_i>=1, sum k — decided by wf_table on every recorded call of every run",
